@@ -48,6 +48,23 @@ def run(R):
     ops, meta, il, ml = CS.run_budgeted(R, ops, meta, group_starts=list(range(len(ops))))
     diffs = compare(R, ops, il, ml, CS.proj_crypt, "hash shape")
     bad = []
+    # digit-count classes of the cost field that the compute budget keeps away from the model: the cheapest member of the class "nine-digit rounds"
+    # costs ~30 s of SHA-crypt, so these few run on the implementation only, in parallel, and go through the same recogniser / re-acceptance oracle
+    # (seeded/C06: a formatting slip that only shows with a 9-digit round count)
+    import concurrent.futures
+    exp = [("sha256crypt", b"$5$rounds=100000000$saltsalt"), ("sha512crypt", b"$6$rounds=100000000$s")]
+    if not quick: exp += [("sha256crypt", b"$5$rounds=999999999$saltsaltsaltsalt"), ("sha512crypt", b"$6$rounds=999999999$saltsaltsaltsalt$")]
+    exp_ops = [CS.crypt_op("rn", 0, b"", st) for _, st in exp]
+    exe = R.harness()
+    def one(o):
+        import subprocess
+        return subprocess.run([exe], input=o + "\n", text=True, capture_output=True, timeout=3000).stdout.splitlines()[0]
+    with concurrent.futures.ThreadPoolExecutor(len(exp_ops)) as ex:
+        exp_lines = list(ex.map(one, exp_ops))
+    for (m, st), o, l in zip(exp, exp_ops, exp_lines):
+        if fields(l).get("ret") == "NULL": bad.append((o, "a valid %s setting with a nine-digit round count was rejected" % m, l))
+        ops.append(o); meta.append((m, "nine-digit-rounds", 0, len(st))); il.append(l); ml.append(l)
+    R.cov["implementation_only_expensive_ops"] = len(exp_ops)
     ops2, info = [], []
     nsucc = 0
     for op, m, line in zip(ops, meta, il):
@@ -81,7 +98,8 @@ def run(R):
     R.cov["evaluations"] = len(ops) + len(ops2)
     R.cov["distinct_nontrivial"] = nsucc
     R.cov["rule"] = ("grammar-shaped settings for all methods x phrases; every successful result is matched against a per-method recogniser written from "
-                     "crypt(5), then passed to crypt_checksalt and used as crypt_gensalt prefix; non-trivial = successful hashes")
+                     "crypt(5), then passed to crypt_checksalt and used as crypt_gensalt prefix; plus (implementation only) the cheapest settings with a nine-digit "
+                     "rounds field for sha256crypt/sha512crypt; non-trivial = successful hashes")
     CS.dist_cov(R, meta, il); CS.sample_cov(R, ops, il, ml)
     CS.finish_proof(R, ok, badthm, bad, diffs, "hash shape")
 
